@@ -59,6 +59,26 @@ impl IncludeError {
     }
 }
 
+pub struct DuplicateDefinitionError {
+    pub name: String,
+    pub file_id: FileID,
+    pub file_location: FileLocation,
+}
+impl DuplicateDefinitionError {
+    pub fn into_report(self) -> Report {
+        let mut report = Report::error(
+            "Duplicated function or template.".to_string(),
+            ReportCode::SameSymbolDeclaredTwice,
+        );
+        report.add_primary(
+            self.file_location,
+            self.file_id,
+            format!("The name `{}` is already used.", self.name),
+        );
+        report
+    }
+}
+
 pub struct MultipleMainError;
 impl MultipleMainError {
     pub fn produce_report() -> Report {
